@@ -28,6 +28,14 @@ structure TrigRow where
   decode : List DecEntry
   encode : List EncEntry
   assertsType : Bool
+  /-- dataclass field order of the rich model class (the order the string / location / switch /
+  unit-property walkers visit the arguments) -/
+  fieldOrder : List String := []
+  /-- arguments in the order `_decode` evaluates them (local-variable lookups and their
+  assertions first, then the constructor's keyword arguments) -/
+  decOrder : List String := []
+  /-- record fields in the order `_encode` evaluates them -/
+  encOrder : List String := []
   deriving Repr, DecidableEq
 
 /-- the record `_encode` builds, with argument values supplied by `argVal` (codec images) -/
